@@ -156,12 +156,14 @@ def _pymultinest_double():
             for mode in modes:
                 for r in _rows(mode):
                     fh.write(r + '\n')
-        # post_separate.dat: two blank lines before every mode
-        with open(base + 'post_separate.dat', 'w') as fh:
-            for mode in modes:
-                fh.write('\n\n')
-                for r in _rows(mode):
-                    fh.write(r + '\n')
+        # post_separate.dat: two blank lines before every mode.  MultiNest writes it only in mode-separation runs; an older
+        # file of a previous run in the same chains directory is left where it is (as the real program leaves it)
+        if multimodal:
+            with open(base + 'post_separate.dat', 'w') as fh:
+                for mode in modes:
+                    fh.write('\n\n')
+                    for r in _rows(mode):
+                        fh.write(r + '\n')
         # stats.dat in the layout MultiNestOptimizer.store_nest_solutions parses when no mode is reported
         m0 = modes[0]
         with open(base + 'stats.dat', 'w') as fh:
